@@ -98,6 +98,9 @@ type FnCtx struct {
 	sigStack        []*types.Signature
 	autoFrame       bool
 	renames         map[string]string // contract name of a local -> its current name (locals.go)
+	rangeKeys       map[int]string    // loop ordinal -> name of the key variable of a range loop (recorded for claims/rangekeys.json)
+	baseRangeKey    map[int]string    // the same, as recorded when the contracts were written
+	curLocals       map[string]bool   // names of the function's locals
 	pureDepth       int               // nesting of callee-body scans in callIsPure
 	callHeapKeys    map[string]bool
 	deps            map[string]bool
